@@ -15,6 +15,7 @@ import (
 	"github.com/taurusgroup/multi-party-sig/pkg/math/curve"
 	"github.com/taurusgroup/multi-party-sig/pkg/math/sample"
 	"github.com/taurusgroup/multi-party-sig/pkg/party"
+	"github.com/taurusgroup/multi-party-sig/pkg/pool"
 	"github.com/taurusgroup/multi-party-sig/pkg/protocol"
 	"github.com/taurusgroup/multi-party-sig/protocols/cmp"
 	"github.com/taurusgroup/multi-party-sig/protocols/cmp/presign"
@@ -23,6 +24,24 @@ import (
 )
 
 var Group = curve.Secp256k1{}
+
+// PoolWorkers > 0 makes every start function below hand the protocol a worker pool of that size
+// (created once per process); 0 = nil pool, everything runs on the calling goroutine.  With a pool
+// the verification of a peer's message partly runs on pool goroutines, where a panic cannot be
+// recovered by the handler and kills the process.
+var PoolWorkers int
+
+var thePool *pool.Pool
+
+func pl() *pool.Pool {
+	if PoolWorkers <= 0 {
+		return nil
+	}
+	if thePool == nil {
+		thePool = pool.NewPool(PoolWorkers)
+	}
+	return thePool
+}
 
 // Spec describes one session: who takes part and how each party's handler is started.
 type Spec struct {
@@ -204,38 +223,38 @@ func FrostSignTaproot(cfg map[party.ID]*frost.TaprootConfig, signers []party.ID,
 
 func CMPKeygen(ids []party.ID, t int) *Spec {
 	return &Spec{Name: "cmp-keygen", IDs: ids, SessionID: []byte("sid"), Start: func(id party.ID) protocol.StartFunc {
-		return cmp.Keygen(Group, id, ids, t, nil)
+		return cmp.Keygen(Group, id, ids, t, pl())
 	}}
 }
 
 func CMPRefresh(cfg map[party.ID]*cmp.Config, ids []party.ID) *Spec {
 	return &Spec{Name: "cmp-refresh", IDs: ids, SessionID: []byte("sid"), Start: func(id party.ID) protocol.StartFunc {
-		return cmp.Refresh(cfg[id], nil)
+		return cmp.Refresh(cfg[id], pl())
 	}}
 }
 
 func CMPSign(cfg map[party.ID]*cmp.Config, signers []party.ID, msg []byte) *Spec {
 	return &Spec{Name: "cmp-sign", IDs: signers, SessionID: []byte("sid"), Start: func(id party.ID) protocol.StartFunc {
-		return cmp.Sign(cfg[id], signers, msg, nil)
+		return cmp.Sign(cfg[id], signers, msg, pl())
 	}}
 }
 
 func CMPPresign(cfg map[party.ID]*cmp.Config, signers []party.ID) *Spec {
 	return &Spec{Name: "cmp-presign", IDs: signers, SessionID: []byte("sid"), Start: func(id party.ID) protocol.StartFunc {
-		return cmp.Presign(cfg[id], signers, nil)
+		return cmp.Presign(cfg[id], signers, pl())
 	}}
 }
 
 // CMPPresignFull is presigning immediately followed by signing in one session.
 func CMPPresignFull(cfg map[party.ID]*cmp.Config, signers []party.ID, msg []byte) *Spec {
 	return &Spec{Name: "cmp-presign-full", IDs: signers, SessionID: []byte("sid"), Start: func(id party.ID) protocol.StartFunc {
-		return presign.StartPresign(cfg[id], signers, msg, nil)
+		return presign.StartPresign(cfg[id], signers, msg, pl())
 	}}
 }
 
 func CMPPresignOnline(cfg map[party.ID]*cmp.Config, pre map[party.ID]*ecdsa.PreSignature, signers []party.ID, msg []byte) *Spec {
 	return &Spec{Name: "cmp-presign-online", IDs: signers, SessionID: []byte("sid"), Start: func(id party.ID) protocol.StartFunc {
-		return cmp.PresignOnline(cfg[id], pre[id], msg, nil)
+		return cmp.PresignOnline(cfg[id], pre[id], msg, pl())
 	}}
 }
 
@@ -245,9 +264,9 @@ func DoernerKeygen(recv, send party.ID) *Spec {
 	return &Spec{Name: "doerner-keygen", IDs: []party.ID{recv, send}, Two: true, Leader: map[party.ID]bool{recv: true}, SessionID: []byte("sid"),
 		Start: func(id party.ID) protocol.StartFunc {
 			if id == recv {
-				return doerner.Keygen(Group, true, recv, send, nil)
+				return doerner.Keygen(Group, true, recv, send, pl())
 			}
-			return doerner.Keygen(Group, false, send, recv, nil)
+			return doerner.Keygen(Group, false, send, recv, pl())
 		}}
 }
 
@@ -255,9 +274,9 @@ func DoernerRefresh(cr *doerner.ConfigReceiver, cs *doerner.ConfigSender, recv, 
 	return &Spec{Name: "doerner-refresh", IDs: []party.ID{recv, send}, Two: true, Leader: map[party.ID]bool{recv: true}, SessionID: []byte("sid"),
 		Start: func(id party.ID) protocol.StartFunc {
 			if id == recv {
-				return doerner.RefreshReceiver(cr, recv, send, nil)
+				return doerner.RefreshReceiver(cr, recv, send, pl())
 			}
-			return doerner.RefreshSender(cs, send, recv, nil)
+			return doerner.RefreshSender(cs, send, recv, pl())
 		}}
 }
 
@@ -265,8 +284,8 @@ func DoernerSign(cr *doerner.ConfigReceiver, cs *doerner.ConfigSender, recv, sen
 	return &Spec{Name: "doerner-sign", IDs: []party.ID{recv, send}, Two: true, Leader: map[party.ID]bool{recv: true, send: true}, SessionID: []byte("sid"),
 		Start: func(id party.ID) protocol.StartFunc {
 			if id == recv {
-				return doerner.SignReceiver(cr, recv, send, hash, nil)
+				return doerner.SignReceiver(cr, recv, send, hash, pl())
 			}
-			return doerner.SignSender(cs, send, recv, hash, nil)
+			return doerner.SignSender(cs, send, recv, hash, pl())
 		}}
 }
